@@ -98,6 +98,9 @@ def register_core(R):
     R.contract(AR + "_ErrorObserver.flush_logged_errors", assumed=True, params={"error_types": "tuple"}, returns="list[Flr]", pure=True,
                ensures=["not allocated(ret)"])
     R.library("twisted.trial._synctest._LogObserver", signature="", returns="any", pure=True)
+    # the one process-wide observer object: only ever handed to _ErrorObserver, whose flush_logged_errors() is an assumed contract
+    # (an arbitrary list of Failures); what it accumulated in EARLIER runs is therefore part of that arbitrary list, not assumed empty
+    R.shared_state["testtools.twistedsupport._runtest._log_observer"] = "opaque; read only through _ErrorObserver.flush_logged_errors (assumed: any list)"
     # a Deferred that was garbage-collected with an unhandled failure
     R.shape("DbgInfo", _getDebugTracebacks=dict(signature="", returns="?str", pure=True, noalloc=True))
     R.fields_of("DbgInfo", failResult="Flr")
